@@ -483,6 +483,9 @@ fn run_and_judge(ctx: &Ctx, cell: &Cell, cell_idx: u64, sc: &Scenario, rep: &mut
         shape += &format!("|{}:{:?}:{}:{}:{}:{}:{}", r.back.name(), r.fault, r.fr.code(), r.upload > 0, r.upload_split, r.early, r.times);
     }
     rep.case_bytes(shape.as_bytes(), sc.reqs[sc.faulty].fault != Fault::None);
+    if rep.samples.len() < 3 && sc.reqs[sc.faulty].fault != Fault::None {
+        rep.sample(json!({"cell": cell_idx, "scenario_shape": shape}));
+    }
     if let Some(e) = &ran.harness_error {
         rep.inconclusive(&format!("harness: {}", e.split(':').next().unwrap_or("error")));
         return;
